@@ -25,12 +25,7 @@ func (w *verifWorld) pickOpOn(tag string, p *gcpPicker) func() {
 }
 
 func (w *verifWorld) uscOp() func() {
-	ai := verifInt("usc_sc")
-	verifAssume(ai >= 0 && ai <= 1)
-	sc := balancer.SubConn(w.scs[0])
-	if ai == 1 {
-		sc = w.scs[1]
-	}
+	sc := verifChoose("usc_scv", w.scList()...)
 	s := connectivity.State(verifInt("usc_state"))
 	verifAssume(s >= 0 && s <= 4)
 	return func() { w.gb.UpdateSubConnState(sc, balancer.SubConnState{ConnectivityState: s}) }
